@@ -63,6 +63,8 @@ namespace sqf::parser::preprocessor
             size_t off = 0;
             size_t line = 1;
             size_t col = 0;
+            // Newlines consumed (line continuations) that have not been answered by a newline in the output yet
+            size_t swallowed_newlines = 0;
             ::sqf::runtime::fileio::pathinfo pathinf;
             // Returns the next character.
             // Will not take into account to skip eg. comments or simmilar things!
@@ -126,6 +128,7 @@ namespace sqf::parser::preprocessor
                     if ((pc1 == '\r' && pc2 == '\n') || pc1 == '\n')
                     {
                         _next();
+                        ++swallowed_newlines;
                         return next();
                     }
                 }
@@ -180,6 +183,10 @@ namespace sqf::parser::preprocessor
                             if (!escaped)
                             {
                                 exit = true;
+                            }
+                            else
+                            {
+                                ++swallowed_newlines;
                             }
                             escaped = false;
                             break;
